@@ -72,8 +72,15 @@ func (p *Program) LoadVocab(path string) error {
 
 // Transparent: a hand-written, named module function with a body that the vocabulary does not list.
 func (p *Program) Transparent(f *ssa.Function) bool {
-	if p.Vocab == nil || f == nil || len(f.Blocks) == 0 || f.Parent() != nil || !p.funcSet[f] {
+	if p.Vocab == nil || f == nil || len(f.Blocks) == 0 || !p.funcSet[f] {
 		return false
+	}
+	if f.Parent() != nil {
+		// a function literal: as new as its name (parent$N) — literals of the pinned tree are in the vocabulary
+		if f.Synthetic != "" || p.IsGenerated(f) {
+			return false
+		}
+		return !p.Vocab[p.Name(f)]
 	}
 	name := p.Name(f)
 	if f.Synthetic != "" {
